@@ -291,6 +291,13 @@ import os as _os  # noqa: E402
 
 _HELIX_SIZES = (7, 8) if _os.environ.get("MDVC_TIER") == "thorough" else (7,)
 HELIX_CASES = [(n, v) for n in _HELIX_SIZES for v in ("plain", "two-chains", "strand-and-gap")]
+# longer chains with a restricted set of possible hydrogen bonds (every other pair is not bonded): long pi helices (a residue that
+# both ends one 5-turn and starts the next), pi over alpha, 3-10 next to alpha
+HELIX_CANDIDATES = {
+    "pi-long": (13, [(i + 5, i) for i in range(0, 8)]),
+    "alpha-pi-310": (12, [(4, 0), (5, 1), (6, 2), (6, 1), (7, 2), (8, 3), (9, 6), (10, 7)]),
+}
+HELIX_CASES += [(n, v) for v, (n, _c) in HELIX_CANDIDATES.items()]
 
 
 def helix_spec(n, chain, skip, init, bend):
@@ -332,6 +339,10 @@ def alpha_helices(ctx, case):
     ex = ctx.ex
     c = ctx.load_c(FILE, ["calculate_alpha_helices"], **GEOM)
     chain = [0] * n if variant != "two-chains" else [0] * (n - 3) + [1] * 3
+    cand = HELIX_CANDIDATES[variant][1] if variant in HELIX_CANDIDATES else None
+    if cand is not None:
+        # precondition of this case: only the candidate pairs can be hydrogen bonded
+        ctx.assume(*[z3.Not(HB(d, a)) for d in range(n) for a in range(n) if (d, a) not in cand])
     skip = [0] * n
     init = [enum_id("SS_LOOP")] * n
     if variant == "strand-and-gap":
@@ -340,7 +351,13 @@ def alpha_helices(ctx, case):
     bend = [(j % 2) for j in range(n)]
     chain_r, hb_r, xyz, ca = Region("chain_ids", "int"), Region("hbonds", "int"), Region("xyz"), Region("ca_indices", "int")
     chain_r.local = list(chain)
-    c.call_models["_test_bond"] = lambda interp, args: SBool(HB(term(args[0]), term(args[1])))
+    def test_bond(interp, args):
+        d, a = (x if isinstance(x, int) else ex.concrete_int(term(x)) for x in args[:2])
+        if cand is not None and (d, a) not in cand:
+            return False
+        return SBool(HB(term(args[0]), term(args[1])))
+
+    c.call_models["_test_bond"] = test_bond
     calls = []
 
     def bends_model(interp, args):
@@ -364,7 +381,8 @@ def alpha_helices(ctx, case):
     ctx.ensure("skip-mask-untouched", z3.BoolVal(sk.items == skip))
 
 
-contract("C15", FILE, "calculate_alpha_helices", cases=HELIX_CASES, lang="c", replay="dssp", covers=["finished"], max_paths=60000)(alpha_helices)
+for _hc in HELIX_CASES:  # one registration per case: explored and discharged in parallel
+    contract("C15", FILE, "calculate_alpha_helices", cases=[_hc], lang="c", replay="dssp", covers=["finished"], max_paths=60000)(alpha_helices)
 
 
 # =====================================================================================================
